@@ -183,12 +183,20 @@ def b1(cx):
                 conds = [x for x in fl.conds_at(c) if x.kind == "if"]
                 if not conds:
                     ok = True
+                dfn = Defs(fn)
                 for x in conds:
                     t = x.test
+                    if isinstance(t, ast.Name) and dfn.single(t.id) is not None:
+                        t = dfn.single(t.id)
                     if isinstance(t, ast.Compare) and len(t.ops) == 1 and isinstance(t.ops[0], ast.NotEq) and x.pol:
                         sides = {norm(t.left), norm(t.comparators[0])}
                         if dt in sides and any(s.endswith(".dtype") for s in sides):
                             ok = True
+        if not ok and spec.startswith("context_cpu::"):
+            cx.note(fn, construct=f"{spec.split('::')[1]}.update_from_nplike: conversion guard in another shape", detail="decided by rule B1e (evaluation with and without a dtype difference)")
+            continue
+        if not ok and conv:
+            cx.recog(False, conv[0], f"{spec}.update_from_nplike: guard of the dtype conversion")
         cx.check(ok, conv[0] if conv else fn, construct=f"{spec.split('::')[1]}.update_from_nplike: astype({dt}) when dtypes differ", detail="values are converted to the destination dtype before their bytes are copied",
                  bad_detail="no conversion to the destination dtype guards the byte transfer: bytes of another dtype are stored", sub="convert")
 
